@@ -128,6 +128,8 @@ def nb_metadata(draw):
 @st.composite
 def mimebundle(draw):
     d = {}
+    if draw(st.sampled_from(range(14))) == 0:
+        return d            # an empty mime bundle is schema-valid
     if draw(st.integers(0, 3)) > 0:
         d["text/plain"] = draw(st.one_of(text(3), st.sampled_from(REPRS)))
     r = draw(st.integers(0, 9))
@@ -346,7 +348,9 @@ def edit_output(draw, o):
             o["traceback"] = o["traceback"] + [_line(draw, CODE_LINES)]
     else:
         w = draw(st.sampled_from(["data", "data", "bundle", "meta", "ec"]))
-        if w == "data":
+        if w == "data" and not o["data"]:
+            o["data"] = draw(mimebundle())
+        elif w == "data":
             d = o["data"]
             k = draw(st.sampled_from(sorted(d)))
             v = d[k]
